@@ -39,7 +39,7 @@ def build(s, copied, shift=0):
     td = s["tdim"]
     # two trunk coordinates: every other scenario uses TWO one-dimensional variables (t1, t2) instead of one two-dimensional variable
     T = tp.spaces.R1("t1") * tp.spaces.R1("t2") if (td == 2 and s.get("split")) else tp.spaces.Rn("t", td)
-    Fv = tp.spaces.R1("f")
+    Fv = tp.spaces.Rn("f", s.get("fdim", 1))        # input functions with one or two components
     U = tp.spaces.Rn("u", s["dim"])
     Fs = tp.spaces.FunctionSpace(tp.domains.Interval(tp.spaces.R1("s"), 0.0, 4.0), Fv)
     m = s["m"]
@@ -48,17 +48,29 @@ def build(s, copied, shift=0):
     acts = Square() if len(s["th"]) < 2 else [Square()] + [Ident()] * (len(s["th"]) - 1)
     trunk = tp.models.FCTrunkNet(T, hidden=tuple(s["th"]), activations=acts, trunk_input_copied=copied)
     if s.get("bk") == "conv":      # ConvBranchNet1D: (batch, channels, length) convolution that keeps the length, then FC layers
-        branch = tp.models.ConvBranchNet1D(Fs, disc, nn.Conv1d(1, 1, kernel_size=3, padding=1), hidden=tuple(s["bh"]), activations=Ident())
+        branch = tp.models.ConvBranchNet1D(Fs, disc, nn.Conv1d(s.get("fdim", 1), s.get("fdim", 1), kernel_size=3, padding=1), hidden=tuple(s["bh"]), activations=Ident())
     else:
         branch = tp.models.FCBranchNet(Fs, disc, hidden=tuple(s["bh"]), activations=Ident())
     model = tp.models.DeepONet(trunk, branch, U, output_neurons=s["neurons"]).double()
     return model, T, Fs, U
 
 
-def fvals(fid, m):
-    """integer samples of function id fid at s = 1..m:  a*s + b"""
+FD = [1]          # number of components of the input functions of the scenario being run
+
+
+def fvals(fid, m, shift=0):
+    """integer samples of function id fid at s = 1..m:  a*s + b  (second component, if any:  b*s + a)"""
     a, b = (fid % 3) - 1, (fid * 2) % 5 - 2
-    return torch.tensor([[float(a * k + b)] for k in range(1, m + 1)], dtype=torch.float64)
+    return torch.tensor([[float(a * k + b)] + ([float(b * k + a)] if FD[0] == 2 else []) for k in range(1 + shift, m + 1 + shift)], dtype=torch.float64)
+
+
+def fn_ab(a, b, s):
+    """the function (a, b) as a python / torch expression of the points s"""
+    return a * s + b if FD[0] == 1 else torch.cat([a * s + b, b * s + a], dim=-1)
+
+
+def fn_k(k, s):
+    return fn_ab(torch.remainder(k, 3) - 1, torch.remainder(2 * k, 5) - 2, s)
 
 
 def loc(lid, td):
@@ -77,6 +89,7 @@ def run_one(s):
     s = dict(s, split=(pick(s["tid"], 2) == 0))
     torch.manual_seed(s["tid"])
     m = s["m"]
+    FD[0] = s.get("fdim", 1)
     r = watched(lambda: (build(s, True), build(s, False)))
     if r[0] != "ok":
         return {"exc": r[1] if len(r) > 1 else "hang", "calls": []}
@@ -95,21 +108,21 @@ def run_one(s):
             if form == "tensor":
                 out = fast(x, fb)
             elif form == "points":
-                out = fast(x, Points(fb, tp.spaces.R1("f")))
+                out = fast(x, Points(fb, tp.spaces.Rn("f", FD[0])))
             elif form == "callable":     # a single function given as python callable
                 f0 = fids[0]
                 a, b = (f0 % 3) - 1, (f0 * 2) % 5 - 2
-                out = fast(x, lambda s: a * s + b)
+                out = fast(x, lambda s: fn_ab(a, b, s))
             elif form == "single_tensor":
                 out = fast(x, fvals(fids[0], m))
             elif form == "funcset" and ci == 7:              # a FunctionSet with a TWO-dimensional parameter (a, b): function a * s + b
                 ab = torch.tensor([[float((k % 3) - 1), float((k * 2) % 5 - 2)] for k in fids], dtype=torch.float64)
                 ps = tp.samplers.DataSampler(Points(ab, tp.spaces.R1("a") * tp.spaces.R1("b")))
-                out = fast(x, tp.domains.CustomFunctionSet(Fs, ps, lambda a, b, s: a * s + b))
+                out = fast(x, tp.domains.CustomFunctionSet(Fs, ps, lambda a, b, s: fn_ab(a, b, s)))
             elif form in ("funcset", "funcset_sum"):     # a FunctionSet (or a sum of two) whose parameters are the function ids
                 def mkfs(ids):
                     ps = tp.samplers.DataSampler(Points(torch.tensor([[float(k)] for k in ids], dtype=torch.float64), tp.spaces.R1("k")))
-                    return tp.domains.CustomFunctionSet(Fs, ps, lambda k, s: (torch.remainder(k, 3) - 1) * s + (torch.remainder(2 * k, 5) - 2))
+                    return tp.domains.CustomFunctionSet(Fs, ps, lambda k, s: fn_k(k, s))
                 fs = mkfs(fids) if form == "funcset" else mkfs(fids[:1]) + mkfs(fids[1:])
                 out = fast(x, fs)
             else:
@@ -138,10 +151,10 @@ def run_one(s):
         other.load_state_dict(fast.state_dict())
         ids2 = [1, 2]
         ps2 = tp.samplers.DataSampler(Points(torch.tensor([[float(k)] for k in ids2], dtype=torch.float64), tp.spaces.R1("k")))
-        fs2 = tp.domains.CustomFunctionSet(Fs, ps2, lambda k, s: (torch.remainder(k, 3) - 1) * s + (torch.remainder(2 * k, 5) - 2))
+        fs2 = tp.domains.CustomFunctionSet(Fs, ps2, lambda k, s: fn_k(k, s))
         for net, sh in ((fast, 0), (other, 1), (fast, 0)):
             o = net(x, fs2).as_tensor.detach()
-            vals = torch.stack([torch.tensor([[float(((f % 3) - 1) * k + ((f * 2) % 5 - 2))] for k in range(1 + sh, m + 1 + sh)], dtype=torch.float64) for f in ids2])
+            vals = torch.stack([fvals(f, m, shift=sh) for f in ids2])
             ref = net(x, vals).as_tensor.detach()
             tr["hist"].append({"fixed": 10 + sh, "used": 10 + sh if torch.equal(o, ref) else -1})
         # (2b) the SAME tensor object as explicit branch input, evaluated without gradient tracking: after its content was
@@ -197,6 +210,17 @@ def run_one(s):
         p3 = probe(plain, True)
         tr["plain"]["out3"], tr["plain"]["pgrad3"] = p3["out"], p3["pgrad"]
         tr["plain"]["dx3"], tr["plain"]["lap3"], tr["plain"]["pgrad_d3"] = p3["dx"], p3["lap"], p3["pgrad_d"]
+        # (4) a LARGE evaluation (functions x locations x components x neurons above 2^22 entries): the value at a location is the one
+        #     the same location has in a small batch, also at the far end of the batch
+        if s.get("big"):
+            npts = 8300
+            xb = Points(torch.tensor([[float((j * 7) % 5 - 2) for _ in range(td)] for j in range(npts)], dtype=torch.float64), T)
+            fb2 = torch.stack([fvals(f, m) for f in (1, 2)])
+            with torch.no_grad():
+                large = fast(xb, fb2).as_tensor.detach()
+                pos = sorted(set(list(range(0, npts, npts // 24)) + list(range(npts - 8, npts))))
+                small = fast(xb[pos, ], fb2).as_tensor.detach()
+            tr["big"] = {"pos": pos, "large": ints(large[:, pos]), "small": ints(small)}
     except Exception as e:
         import traceback
         tr["exc"] = type(e).__name__
